@@ -210,6 +210,9 @@ func (e *Exec) frameCheck(st *State, p *PtrVal) {
 
 func (e *Exec) symVal(st *State, t types.Type, name string, depth int) Val {
 	c := e.C
+	if isTimeType(t) && !e.IntMode {
+		return &OpaqueVal{T: t, Name: name}
+	}
 	if isTimeType(t) {
 		sec := c.Var(name+".sec", IntS)
 		ns := c.Var(name+".nsec", IntS)
@@ -228,7 +231,7 @@ func (e *Exec) symVal(st *State, t types.Type, name string, depth int) Val {
 		case isStringType(t):
 			l := c.Var(name+".len", e.idxSort())
 			st.assume(e.lenFact(l))
-			return &StringVal{C: &ArrBase{Name: name + ".arr", Elem: e.elemSort(types.Typ[types.Uint8])}, Off: e.idx(0), Len: l}
+			return &StringVal{C: e.arrBase(name+".arr", types.Typ[types.Uint8]), Off: e.idx(0), Len: l}
 		case isFloatType(t):
 			return &OpaqueVal{T: t, Name: name}
 		}
@@ -258,7 +261,7 @@ func (e *Exec) symVal(st *State, t types.Type, name string, depth int) Val {
 		n := u.Len()
 		if isScalarType(u.Elem()) {
 			es := e.elemSort(u.Elem())
-			return &ArrayVal{ElemT: u.Elem(), Scalar: true, Elem: es, C: &ArrBase{Name: name + ".arr", Elem: es}, Len: e.idx(n)}
+			return &ArrayVal{ElemT: u.Elem(), Scalar: true, Elem: es, C: e.arrBase(name+".arr", u.Elem()), Len: e.idx(n)}
 		}
 		if n > 256 {
 			e.bail("symbolic array of %d non-scalars", n)
@@ -295,7 +298,7 @@ func (e *Exec) symSlice(st *State, elem types.Type, name string) Val {
 	if !isScalarType(elem) {
 		n, ok := e.W.lenHint(name)
 		if !ok {
-			e.bail("slice of non-scalar elements with symbolic length: %s (give a `bound len(%s) <= N` or `concretize`) ", name, name)
+			return e.symList(st, elem, name)
 		}
 		av := &ArrayVal{ElemT: elem, Len: e.idx(int64(n)), List: make([]Val, n)}
 		for i := range av.List {
@@ -313,11 +316,23 @@ func (e *Exec) symSlice(st *State, elem types.Type, name string) Val {
 	st.assume(e.lenFact(cp))
 	st.assume(e.leIdx(l, cp))
 	es := e.elemSort(elem)
-	av := &ArrayVal{ElemT: elem, Scalar: true, Elem: es, C: &ArrBase{Name: name + ".arr", Elem: es}, Len: cp}
+	av := &ArrayVal{ElemT: elem, Scalar: true, Elem: es, C: e.arrBase(name+".arr", elem), Len: cp}
 	id := e.newObj(st, av, &ObjMeta{T: types.NewArray(elem, 0), Name: name, Param: true})
 	nilc := c.Var(name+".isnil", BoolS)
 	st.assume(c.Implies(nilc, c.Eq(cp, e.idx(0))))
 	return &SliceVal{Obj: id, Off: e.idx(0), Len: l, Cap: cp, Nil: nilc, ElemT: elem}
+}
+
+// symList: slice of non-scalars with symbolic length; elements are symbolic values named by (list, index term).
+func (e *Exec) symList(st *State, elem types.Type, name string) *SliceVal {
+	c := e.C
+	l := c.Var(name+".len", e.idxSort())
+	st.assume(e.lenFact(l))
+	av := &ArrayVal{ElemT: elem, Len: l, Sym: name}
+	id := e.newObj(st, av, &ObjMeta{T: types.NewArray(elem, 0), Name: name, Param: true})
+	nilc := c.Var(name+".isnil", BoolS)
+	st.assume(c.Implies(nilc, c.Eq(l, e.idx(0))))
+	return &SliceVal{Obj: id, Off: e.idx(0), Len: l, Cap: l, Nil: nilc, ElemT: elem}
 }
 
 // havoc returns a fresh unconstrained value shaped like v (same type t).
@@ -355,7 +370,10 @@ func (e *Exec) havocVal(st *State, v Val, t types.Type, name string) Val {
 		return n
 	case *ArrayVal:
 		if x.Scalar {
-			return &ArrayVal{ElemT: x.ElemT, Scalar: true, Elem: x.Elem, C: &ArrBase{Name: c.FreshName(name + ".arr"), Elem: x.Elem}, Len: x.Len}
+			return &ArrayVal{ElemT: x.ElemT, Scalar: true, Elem: x.Elem, C: e.arrBase(c.FreshName(name+".arr"), x.ElemT), Len: x.Len}
+		}
+		if x.Sym != "" || x.List == nil {
+			return &ArrayVal{ElemT: x.ElemT, Len: x.Len, Sym: c.FreshName(name)}
 		}
 		n := &ArrayVal{ElemT: x.ElemT, Len: x.Len, List: make([]Val, len(x.List))}
 		for i := range x.List {
@@ -388,7 +406,10 @@ func (e *Exec) havocVal(st *State, v Val, t types.Type, name string) Val {
 func (e *Exec) freshSliceObj(st *State, elem types.Type, name string) *SliceVal {
 	c := e.C
 	if !isScalarType(elem) {
-		e.bail("loop-carried slice of non-scalar %s", elem)
+		s := e.symList(st, elem, c.FreshName(name))
+		e.metaAll[s.Obj].Param = false
+		e.metaAll[s.Obj].Fresh = true
+		return s
 	}
 	nm := c.FreshName(name)
 	l := c.Var(nm+".len", e.idxSort())
@@ -397,7 +418,7 @@ func (e *Exec) freshSliceObj(st *State, elem types.Type, name string) *SliceVal 
 	st.assume(e.lenFact(cp))
 	st.assume(e.leIdx(l, cp))
 	es := e.elemSort(elem)
-	av := &ArrayVal{ElemT: elem, Scalar: true, Elem: es, C: &ArrBase{Name: nm + ".arr", Elem: es}, Len: cp}
+	av := &ArrayVal{ElemT: elem, Scalar: true, Elem: es, C: e.arrBase(nm+".arr", elem), Len: cp}
 	id := e.newObj(st, av, &ObjMeta{T: types.NewArray(elem, 0), Fresh: true, Growable: true, Name: nm})
 	return &SliceVal{Obj: id, Off: e.idx(0), Len: l, Cap: cp, Nil: c.Var(nm+".isnil", BoolS), ElemT: elem}
 }
